@@ -294,14 +294,16 @@ def canary(eng):
     return verify(eng, "canary", run, lambda eng, o: eng.prove("canary-mod-65535-is-eac", z3.Int("S") % 65535 == spec_eac16(z3.Int("S"))), func="canary")
 
 
-def _wav_checksum_replay(total_ff, tree):
+def _wav_checksum_replay(total_ff, tree, extra=0):
+    """an image of total_ff bytes 0xFF plus (if extra) one byte `extra`: any byte sum can be reached this way"""
     from spec import bk_tape
-    img = b"\xff" * total_ff
-    code = "from pdpy11.bk_wav import encode_as_wav\nresult = encode_as_wav(512, bytes.fromhex(%r), b'NAME'.ljust(16)).hex()\n" % img.hex()
+    img = b"\xff" * total_ff + (bytes([extra]) if extra else b"")
+    code = "from pdpy11.bk_wav import encode_as_wav\nresult = encode_as_wav(512, b'\\xff' * %d + %r, b'NAME'.ljust(16)).hex()\n" % (total_ff, bytes([extra]) if extra else b"")
     r = driver.native([{"kind": "py", "code": code}], tree)[0]
     d = bk_tape.demodulate(bytes.fromhex(r["result"])[44:])
     exp = bk_tape.eac16(sum(img))
-    return dict(jobs=[{"kind": "py", "code": code}], image="%d bytes of 0xFF (sum %d)" % (total_ff, sum(img)), expected=[exp], observed=[d["checksum"]], reproduced=d["checksum"] != exp)
+    return dict(jobs=[{"kind": "py", "code": code}], image="%d bytes of 0xFF%s (sum %d = 0x%x)" % (total_ff, " and one byte 0x%02x" % extra if extra else "", sum(img), sum(img)),
+                expected=[exp], observed=[d["checksum"]], reproduced=d["checksum"] != exp)
 
 
 def replay(o, tree):
@@ -310,9 +312,17 @@ def replay(o, tree):
     if cfg.get("kind") == "wav":
         # smallest image with a positive byte sum that is a multiple of 65535: 257 bytes of 0xFF; generally use the witness sum if feasible
         S = w.get("sum", 65535)
-        if S > 0 and S % 255 == 0 and S // 255 < 70000:
-            return _wav_checksum_replay(S // 255, tree)
-        return _wav_checksum_replay(257, tree)
+        tries = []
+        if isinstance(S, int) and 0 < S < 255 * 70000:
+            tries.append(divmod(S, 255))
+        # the sums where 16-bit folding is delicate: multiples of 65535, one carry, two carries, the first sum whose fold carries again
+        tries += [(257, 0), (257, 1), (514, 0), (514, 1), (515, 0), (771, 0), (1028, 3), (0, 7)]
+        last = None
+        for q, r_ in tries:
+            last = _wav_checksum_replay(q, tree, r_)
+            if last["reproduced"]:
+                return last
+        return last
     if cfg.get("kind") == "bin":
         n = max(0, w.get("len", 3))
         if n >= 65536:
